@@ -646,10 +646,18 @@ type simCluster struct {
 	onAsk        func() // called (under mu) when a node emits ASK
 	connSeq      int
 	nodesDelayMs int // CLUSTER NODES answers this late (the text is the layout at the time the command arrived)
+	// gossip lag (Model/Gossip.v): slot -> the finalisation of its migration has reached the old owner but not yet the
+	// new one, which - still "importing, not owner" in its own view - sends commands without ASKING back to the old owner
+	lag map[int]*simLag
+}
+
+type simLag struct {
+	old  int // the old owner
+	left int // MOVED answers the new owner still gives before it has learned
 }
 
 func newSimCluster(n int) *simCluster {
-	cl := &simCluster{}
+	cl := &simCluster{lag: map[int]*simLag{}}
 	for i := 0; i < n; i++ {
 		cl.addNode(-1)
 	}
@@ -766,6 +774,13 @@ func (cl *simCluster) setLayout(ranges [][3]int) { // lo, hi, node
 // clusterNodesText: the truth as CLUSTER NODES prints it (masters with slot ranges, replicas after them)
 func (cl *simCluster) clusterNodesText(me int) string {
 	var b strings.Builder
+	// the view of the node asked: a new owner that has not learned yet still lists the slot under the old owner
+	viewOwner := func(s int) int {
+		if lg, ok := cl.lag[s]; ok && cl.owner[s] == me {
+			return lg.old
+		}
+		return cl.owner[s]
+	}
 	for _, nd := range cl.nodes {
 		if nd.gone {
 			continue
@@ -787,7 +802,7 @@ func (cl *simCluster) clusterNodesText(me int) string {
 		if nd.master < 0 {
 			lo := -1
 			for s := 0; s <= 16384; s++ {
-				mine := s < 16384 && cl.owner[s] == nd.idx
+				mine := s < 16384 && viewOwner(s) == nd.idx
 				if mine && lo < 0 {
 					lo = s
 				}
@@ -921,6 +936,15 @@ func (nd *simNode) handle(v *wv, asking *bool, serial int) *wv {
 		me = nd.master // a replica serves its master's slots (READONLY semantics are not modelled)
 	}
 	if own == me {
+		if lg, ok := cl.lag[slot]; ok && !wasAsking {
+			if lg.left > 0 {
+				lg.left--
+				cl.moved++
+				entry.result = "moved"
+				return wErr(fmt.Sprintf("MOVED %d %s", slot, cl.nodes[lg.old].addr))
+			}
+			delete(cl.lag, slot) // it has learned by now
+		}
 		if tgt, mig := cl.nodes[me].migrate[slot]; mig {
 			if _, has := nd.store[string(key)]; !has {
 				cl.asks++
